@@ -151,6 +151,14 @@ Theorem C11_reflush_refused : forall w b c,
 Proof. exact reflush_refused. Qed.
 Print Assumptions C11_reflush_refused.
 
+Theorem C11_batch_reread_refused : forall w b kd c,
+  let r := batch_reread w b kd in
+  exec1 w b (AReadBatch kd c) = (emit w (EBRead b r), if c then None else raised r) /\
+  (bout (bat w b) = None -> r = RRaise E_BATCHING) /\
+  (forall o, bout (bat w b) = Some o -> r = rep_of kd (Some o)).
+Proof. exact batch_reread_refused. Qed.
+Print Assumptions C11_batch_reread_refused.
+
 Theorem C11_subscriber_read : forall w b k v j kd i i2,
   inv None w -> b < nb w -> nth_error (bitems (bat w b)) k = Some i -> iout (itm w i) = None ->
   nth_error (bitems (bat w b)) j = Some i2 ->
